@@ -36,6 +36,7 @@ def run(ctx):
             run_scenario(ctx, "C11", exe, sc, lb, stats, samples, *O, model=True, nrandom=3000)
         run_scenario(ctx, "C11", exe, G3, "G3", stats, samples, *O, model=True, nrandom=15000)
         run_scenario(ctx, "C11", exe, J3, "J3", stats, samples, *O, model=True, nrandom=15000)
+    prove_core(ctx)
     finish_cov(ctx, stats, samples, "AtomImpl exhaustively checked by TLC (Atomicity = refinement of the atomic gauge, Termination; also with spurious CAS failure); "
                "every edge replayed in the real Gauge/IntGauge; every distinct history judged by LinGauge (linearizability incl. the final value)")
     ctx.assumptions += ["sequentially consistent executions", "2-3 threads, 3 calls each, amounts from {1,2,4,8}; float gauges also at scale 2^-60, integer gauges also offset to the i64 boundaries (wrapping)"]
